@@ -361,11 +361,32 @@ pub mod net {
         fn read(&mut self, buf: &mut [u8]) -> io::Result<usize> {
             super::must_backend().read(self.id, buf)
         }
+        // like readv(2): fills the buffers in order with what one read returns
+        fn read_vectored(&mut self, bufs: &mut [io::IoSliceMut<'_>]) -> io::Result<usize> {
+            let total: usize = bufs.iter().map(|b| b.len()).sum();
+            let mut all = vec![0u8; total];
+            let n = super::must_backend().read(self.id, &mut all)?;
+            let mut off = 0;
+            for b in bufs.iter_mut() {
+                if off >= n {
+                    break;
+                }
+                let k = (n - off).min(b.len());
+                b[..k].copy_from_slice(&all[off..off + k]);
+                off += k;
+            }
+            Ok(n)
+        }
     }
 
     impl Write for TcpStream {
         fn write(&mut self, buf: &[u8]) -> io::Result<usize> {
             super::must_backend().write(self.id, buf)
+        }
+        // like writev(2): the buffers are taken as one run of bytes, of which a prefix is accepted
+        fn write_vectored(&mut self, bufs: &[io::IoSlice<'_>]) -> io::Result<usize> {
+            let all: Vec<u8> = bufs.iter().flat_map(|b| b.iter().copied()).collect();
+            super::must_backend().write(self.id, &all)
         }
         fn flush(&mut self) -> io::Result<()> {
             super::must_backend().flush(self.id)
